@@ -169,6 +169,27 @@ void harness(void) {
 #endif
 #else
   /* relational modes: raw2 is raw1 rewritten */
+#ifdef MODE_BLANKRUN
+  /* long runs of blanks (C16: any amount of spacing): raw1 is a 3-letter
+   * mnemonic, one blank and BR_K arbitrary operand characters; raw2 has RUN_A
+   * blanks/tabs before the mnemonic and RUN_B more after the separating blank.
+   * All positions are constants; RUN_A + RUN_B exceeds the line buffer, so any
+   * limit that counts dropped blanks shows. */
+  int j = 0;
+  {
+    int p = 0;
+    for (int k = 0; k < RUN_A; k++) raw2[j++] = (k & 1) ? '\t' : ' ';
+    for (int k = 0; k < 3 + BR_K; k++) {
+      unsigned long b = IN(1 + k);
+      char c = (char)(unsigned char)b;
+      if (k < 3) ASSUME(b >= 'a' && b <= 'z');
+      else ASSUME(b >= 0x20 && b < 0x7f && c != ';' && c != '%');
+      if (k == 3) { raw1[p++] = ' '; raw2[j++] = ' '; for (int q = 0; q < RUN_B; q++) raw2[j++] = (q & 1) ? '\t' : ' '; }
+      raw1[p++] = c; raw2[j++] = c;
+    }
+    raw1[p++] = '\n'; raw1[p] = 0; raw2[j++] = '\n';
+  }
+#else
   any_line(raw1, 0, 1, NMAX / 2);
   int j = 0;
   int in_comment = 0, seen_letter = 0;
@@ -231,6 +252,7 @@ void harness(void) {
     int l1 = (int)strlen(raw1);
     raw1[l1] = '\n'; raw1[l1 + 1] = 0;
   }
+#endif
 #endif
   raw2[j] = 0;
   VF_REGION();
